@@ -151,6 +151,7 @@ def verify_block(ex, fi, c, name, label=None):
         add_global_axioms(ex)
         return ex.obs, None
     except VCError as e:
+        add_global_axioms(ex)       # the obligations generated before the abort are complete in themselves
         return ex.obs, str(e)
     finally:
         ex.verifying_block = None
@@ -223,6 +224,7 @@ def cases_cover(ex, fi, c, label=None):
         add_global_axioms(ex)
         return ex.obs, None
     except VCError as e:
+        add_global_axioms(ex)       # the obligations generated before the abort are complete in themselves
         return ex.obs, str(e)
 
 
@@ -292,6 +294,7 @@ def verify_one(ex, fi, c, label=None, case=None):
         add_global_axioms(ex)
         return ex.obs, None
     except VCError as e:
+        add_global_axioms(ex)       # the obligations generated before the abort are complete in themselves
         return ex.obs, str(e)
 
 
